@@ -144,6 +144,7 @@ def run(idx: ProgramIndex, rep: Report, tier: str):
     rep.rule("C02-5", "the enumerators feeding the objective are total: every registered prior / added-loss term is yielded, with (module, prior, closure) of the same registration at the positions the objective unpacks")
     from .common_enum import enumeration_obligations
     enumeration_obligations(idx, rep, "C02-5", [idx.find_class("ExactMarginalLogLikelihood").lookup("_add_other_terms")], floor=9)
+    grad_state(idx, rep)
 
 
 def _other_terms(idx: ProgramIndex, cls: ClassInfo) -> Tuple[FuncInfo, List[str], Affine]:
@@ -413,3 +414,74 @@ def aliasing(idx: ProgramIndex, rep: Report):
     for cn in ("ExactMarginalLogLikelihood", "LeaveOneOutPseudoLikelihood", "SumMarginalLogLikelihood", "MarginalLogLikelihood"):
         funcs += list(idx.find_class(cn).methods.values())
     aliasing_obligations(idx, rep, "C02-4", funcs, 5, "objective methods interpreted")
+
+
+# ---- C02-6: the kernel matrix the MLL differentiates is evaluated in the grad state of its creation ------------------------
+def grad_state(idx: ProgramIndex, rep: Report):
+    """The MLL reuses the kernel evaluation cached on the model output's lazy kernel tensor.  Its gradient w.r.t. the kernel
+    hyperparameters is the dense gradient only if that evaluation happens with autograd recording whenever the tensor was created
+    with autograd recording - whatever the grad mode at the moment some consumer (a sample under no_grad, a logging call) first
+    touches it.  Structure: __init__ records torch.is_grad_enabled(); the decorator runs the method inside
+    torch.set_grad_enabled(<recorded flag>) on every path; every method that evaluates the kernel carries the decorator."""
+    rep.rule("C02-6", "lazy kernel tensors evaluate their kernel in the grad state recorded at construction (both directions), in every kernel-evaluating method")
+    mod = idx.module(idx.package + ".lazy.lazy_evaluated_kernel_tensor")
+    L = mod.classes["LazyEvaluatedKernelTensor"]
+    dec = mod.functions.get("recall_grad_state")
+    if dec is None:
+        raise AnalysisError("anchor vanished: recall_grad_state")
+    # (a) the flag
+    init = idx.method(L, "__init__", own=True)
+    flags = [n.targets[0].attr for n in ast.walk(init.node) if isinstance(n, ast.Assign) and len(n.targets) == 1 and isinstance(n.targets[0], ast.Attribute) and chain(n.targets[0].value) == init.params[0]
+             and isinstance(n.value, ast.Call) and chain(n.value.func) == "torch.is_grad_enabled"]
+    rep.add("C02-6", "%s:LazyEvaluatedKernelTensor.__init__[flag]" % mod.name, init.where, len(flags) == 1, "records torch.is_grad_enabled() as self.%s" % flags[0] if len(flags) == 1 else "the grad state at construction is not recorded", {})
+    flag = flags[0] if flags else "_is_grad_enabled"
+    # (b) the decorator: every call of the wrapped method sits inside `with torch.set_grad_enabled(self.<flag>)`
+    wrapped = [n for n in ast.walk(dec.node) if isinstance(n, ast.FunctionDef) and n is not dec.node]
+    probs = []
+    ncalls = 0
+    meth = dec.params[0]
+    for w in wrapped:
+        self_p = w.args.args[0].arg if w.args.args else "self"
+
+        def scan(stmts, in_scope):
+            nonlocal ncalls
+            for st in stmts:
+                if isinstance(st, (ast.With, ast.AsyncWith)):
+                    ok = any(isinstance(it.context_expr, ast.Call) and chain(it.context_expr.func) == "torch.set_grad_enabled" and it.context_expr.args
+                             and chain(it.context_expr.args[0]) == "%s.%s" % (self_p, flag) for it in st.items)
+                    scan(st.body, in_scope or ok)
+                    continue
+                for fld in ("body", "orelse", "finalbody"):
+                    sub = getattr(st, fld, None)
+                    if isinstance(sub, list) and sub and isinstance(sub[0], ast.stmt):
+                        scan(sub, in_scope)
+                for h in getattr(st, "handlers", []) or []:
+                    scan(h.body, in_scope)
+                own = [st] if not any(isinstance(getattr(st, f, None), list) and getattr(st, f) and isinstance(getattr(st, f)[0], ast.stmt) for f in ("body", "orelse", "finalbody")) else [getattr(st, "test", None), getattr(st, "iter", None)]
+                for part in own:
+                    if part is None:
+                        continue
+                    for c in ast.walk(part):
+                        if isinstance(c, ast.Call) and isinstance(c.func, ast.Name) and c.func.id == meth:
+                            ncalls += 1
+                            if not in_scope:
+                                probs.append("the wrapped method is called (line %d) outside `with torch.set_grad_enabled(%s.%s)`: a tensor created with autograd recording evaluates its kernel in whatever grad mode its first consumer happens to run (e.g. under no_grad), and the MLL loses the kernel gradient" % (c.lineno, self_p, flag))
+        scan(w.body, False)
+    rep.add("C02-6", "%s:recall_grad_state" % mod.name, dec.where, ncalls >= 1 and not probs, "the method runs inside torch.set_grad_enabled(self.%s) on every path (%d call site(s))" % (flag, ncalls) if ncalls >= 1 and not probs else "; ".join(sorted(set(probs))) or "the decorator does not call the wrapped method", {})
+    # (c) coverage: methods that evaluate the kernel are decorated
+    n = 0
+    for name, fi in sorted(L.methods.items()):
+        evaluates = any(isinstance(c, ast.Call) and (chain(c.func) in ("self.kernel", "self.kernel.forward") or (isinstance(c.func, ast.Attribute) and c.func.attr == "__call__" and "kernel" in src(c.func.value))) for c in ast.walk(fi.node))
+        if not evaluates:
+            continue
+        n += 1
+        decorated = any(d.split(".")[-1] == "recall_grad_state" for d in fi.decorators)
+        # methods that fix the grad mode themselves (the chunked checkpointing paths) are explicit, not caller dependent
+        explicit = False
+        for w in ast.walk(fi.node):
+            if isinstance(w, (ast.With, ast.AsyncWith)) and any(isinstance(it.context_expr, ast.Call) and chain(it.context_expr.func) in ("torch.enable_grad", "torch.no_grad", "torch.set_grad_enabled") for it in w.items):
+                if any(isinstance(c, ast.Call) and chain(c.func) in ("self.kernel", "self.kernel.forward") for b in w.body for c in ast.walk(b)):
+                    explicit = True
+        ok = decorated or explicit
+        rep.add("C02-6", "%s:LazyEvaluatedKernelTensor.%s[grad state]" % (mod.name, name), fi.where, ok, ("evaluates the kernel under recall_grad_state" if decorated else "fixes the grad mode itself around the kernel call") if ok else "evaluates the kernel without recall_grad_state: its result depends on the grad mode of the caller", {})
+    rep.floor("C02-6", "kernel-evaluating methods of the lazy kernel tensor", n, 3)
